@@ -125,6 +125,28 @@ def check_module(m, res, d, seed_label):
         if len(set(uniq)) != len(uniq):
             res['expect'].append(('doctestables', {'kind': 'module-examples', 'source': src, 'style': style, 'label': seed_label},
                                   'unique identifiers', uniq, 'identifiers are not unique within the module'))
+    # F. identifiers under every analysis mode: callname:num of the inventory, unique
+    from xdoctest import core
+    for analysis in ('auto', 'dynamic'):
+        try:
+            with cc.quiet():
+                exs = list(core.parse_doctestables(path, style='auto', analysis=analysis))
+        except Exception as ex:
+            res['unknown'] += 1
+            _tag(res, 'analysis-%s-raised:%s' % (analysis, type(ex).__name__))
+            continue
+        finally:
+            cc.forget_module(modname)
+        _cnt(res, 'identifiers:' + analysis)
+        ids = ['%s:%d' % (e.callname, e.num) for e in exs]
+        uniq = [e.unique_callname for e in exs]
+        exp = ['%s:%d' % (a, b) for a, b, _ in cc.expected_ids(m, 'auto')]
+        inp = {'kind': 'module-identifiers', 'source': src, 'analysis': analysis, 'label': seed_label}
+        if ids != uniq or len(set(uniq)) != len(uniq):
+            res['expect'].append(('identifiers', inp, 'unique callname:num', uniq, 'identifiers are not unique / not callname:num'))
+        elif (analysis == 'auto' or m.fragment) and sorted(ids) != sorted(exp):
+            res['expect'].append(('identifiers', inp, sorted(exp), sorted(ids),
+                                  'identifiers under analysis=%r differ from the inventory by construction' % analysis))
     if len(res['samples']) < 2:
         res['samples'].append({'op': 'calldefs', 'inventory': inv_exp[:8], 'features': sorted(m.features)[:10]})
 
@@ -328,6 +350,7 @@ def correspondence(ctx, corr):
     merge(corr, par.pmap(_w_package, [(ctx.seed, s, 10 if q else 100) for s in range(16)]))
     merge(corr, par.pmap(_w_package_e2e, [(ctx.seed, s, 1 if q else 6) for s in range(8 if q else 16)]))
     regression_cases(corr)
+    latin1_regression(corr)
     # tag lines one by one
     lines = GOOGLE_POOL
     import re
@@ -393,7 +416,47 @@ def classify(ctx, hit):
 WITNESS_C = b'# -*- coding: latin-1 -*-\ndef f():\n    """caf\xe9\n\n    >>> print(1)\n    1\n    """\n'
 
 
+def latin1_regression(corr):
+    """input of the repaired defect afa3c87 (former K-C07-c): a latin-1 module with a non-ASCII byte is collected"""
+    from xdoctest import core
+    with cc.scratch_dir() as d:
+        path = os.path.join(d, cc.unique_modname('xdvlatin') + '.py')
+        with open(path, 'wb') as f:
+            f.write(WITNESS_C)
+        for analysis in ('static', 'dynamic'):
+            try:
+                with cc.quiet():
+                    obs = ['%s:%d' % (e.callname, e.num) for e in core.parse_doctestables(path, style='auto', analysis=analysis)]
+            except Exception as ex:
+                obs = 'raise:' + type(ex).__name__
+            corr.count('regression')
+            if obs != ['f:0']:
+                corr.expect_fail('identifiers', {'kind': 'bytes-module', 'bytes': list(WITNESS_C), 'analysis': analysis}, ['f:0'], obs,
+                                 'a module in a declared latin-1 encoding with a non-ASCII byte is not collected')
+
+
+WITNESS_D = '# -*- coding: latin-1 -*-\ndef f():\n    """caf\u00e9\n\n    >>> print("\u00e9")\n    \u00e9\n    """\n'.encode('latin-1')
+
+
 def replay_finding(ctx, finding):
+    if finding['id'] == 'K-C07-d':
+        # residual of afa3c87: the text decoded with the declared encoding is re-encoded as UTF-8 and parsed as BYTES, so
+        # ast honours the latin-1 cookie on UTF-8 bytes: every non-ASCII character of a docstring is garbled (static only)
+        from xdoctest import core
+        with cc.scratch_dir() as d:
+            path = os.path.join(d, cc.unique_modname('xdvlatin') + '.py')
+            with open(path, 'wb') as f:
+                f.write(WITNESS_D)
+            out = {}
+            for analysis in ('static', 'dynamic'):
+                try:
+                    with cc.quiet():
+                        out[analysis] = [e.docsrc for e in core.parse_doctestables(path, style='auto', analysis=analysis)]
+                except Exception as ex:
+                    out[analysis] = repr(ex)
+                finally:
+                    cc.forget_module(os.path.basename(path)[:-3])
+        return out['dynamic'] == ['>>> print("\u00e9")\n\u00e9'] and out['static'] == ['>>> print("\u00c3\u00a9")\n\u00c3\u00a9']
     if finding['id'] == 'K-C07-c':
         # a module in a declared non-UTF-8 encoding with a non-ASCII byte: the UTF-8 decode fails, the fallback hands BYTES
         # to TopLevelVisitor, and `bytes.encode` raises AttributeError out of parse_doctestables (dynamic analysis is fine)
@@ -417,11 +480,39 @@ def replay(ctx, failing):
     inp = failing['input']
     exp = failing.get('expected')
     kind = inp.get('kind')
+    if kind == 'bytes-module':
+        from xdoctest import core
+        with cc.scratch_dir() as d:
+            path = os.path.join(d, cc.unique_modname('xdvbytes') + '.py')
+            with open(path, 'wb') as f:
+                f.write(bytes(inp['bytes']))
+            try:
+                with cc.quiet():
+                    obs = ['%s:%d' % (e.callname, e.num) for e in core.parse_doctestables(path, style='auto', analysis=inp['analysis'])]
+            except Exception as ex:
+                obs = 'raise:' + type(ex).__name__
+        print('file bytes: %r\nexpected %r, observed now %r' % (bytes(inp['bytes']), exp, obs))
+        return obs != exp
     if kind == 'module-inventory':
         obs = cc.observe_inventory(inp['source'])
         print(inp['source'])
         print('expected inventory: %r\nobserved now      : %r' % (exp, obs))
         return obs != exp
+    if kind == 'module-identifiers':
+        from xdoctest import core
+        with cc.scratch_dir() as d:
+            path, modname = cc.write_module(d, inp['source'])
+            try:
+                with cc.quiet():
+                    exs = list(core.parse_doctestables(path, style='auto', analysis=inp['analysis']))
+            finally:
+                cc.forget_module(modname)
+        ids = sorted('%s:%d' % (e.callname, e.num) for e in exs)
+        print(inp['source'])
+        print('analysis=%s\nexpected identifiers: %r\nobserved now        : %r' % (inp['analysis'], exp, ids))
+        if exp == 'unique callname:num':
+            return len(set(ids)) != len(ids) or ids != sorted(e.unique_callname for e in exs)
+        return ids != exp
     if kind == 'module-examples':
         with cc.scratch_dir() as d:
             path, _ = cc.write_module(d, inp['source'])
